@@ -177,6 +177,34 @@ def permutation_search(ctx: Ctx) -> None:
                 break
 
 
+def permutation_corpus(ctx: Ctx) -> None:
+    """Hand-kept acyclic programs (past findings) run with their recorded argument orders."""
+    cdir = os.path.join(VERIF, "corpus", "c10")
+    for fn in sorted(os.listdir(cdir)) if os.path.isdir(cdir) else []:
+        if not fn.endswith(".json"):
+            continue
+        case = json.load(open(os.path.join(cdir, fn)))
+        base = os.path.join(ctx.tmp, "pc-" + case["name"])
+        root = os.path.join(base, "src")
+        os.makedirs(root)
+        for p, t in case["files"].items():
+            open(os.path.join(root, p), "w").write(t)
+        outs = []
+        for k, order in enumerate(case["orders"]):
+            r = B.run_mypy(root, os.path.join(base, f"c{k}"), ["--no-incremental"], targets=order, scratch=base)
+            outs.append((order, B.canon_output(r)))
+        ctx.case(("perm-corpus", case["name"]))
+        ctx.dist("corpus_program", case["name"])
+        for order, o in outs[1:]:
+            d = [x for x in B.diff_outputs(o, outs[0][1]) if not x.startswith("~")]
+            if d and not B.only_once_note_diff(d):
+                ctx.report({"class": "file-order-dependent", "corpus": case["name"]},
+                           f"corpus program {case['name']}: permuting the file arguments changes the diagnostics: {d[:2]}",
+                           {"files": case["files"], "order_a": outs[0][0], "order_b": order, "diff": d})
+                break
+        shutil.rmtree(base, ignore_errors=True)
+
+
 def history_search(ctx: Ctx) -> None:
     """A build preceded in the same interpreter by unrelated builds vs the same build in a fresh process."""
     n = ctx.pick(3, 10)
@@ -228,6 +256,7 @@ def main(ctx: Ctx) -> None:
                 "hash-seed independence of the checker's internals (set iteration inside checker.py etc.) is searched, not proved")
     graph_correspondence(ctx)
     hash_seed_search(ctx)
+    permutation_corpus(ctx)
     permutation_search(ctx)
     history_search(ctx)
     if not proved and not ctx.violations:
